@@ -232,6 +232,27 @@ pub fn gen(tier: Tier, rng: &mut Rng64, out: &mut Out) {
         let tt: Vec<bool> = (0..16).map(|i| { let v = val_of_index(4, i); (v[0] && v[1]) || (!v[0] && v[2]) }).collect();
         run("C02.prog", &[s("4"), fmt_bdd(&bdd_of_tt(4, &tt)), s("varrestrict:0:3:1;varrestrict:0:3:0;restrict:0:3=1;and:0:1;iff:0:1")], out);
     }
+    // --- histories over operands with more than 65 536 nodes (pointers that need a third byte): a dense
+    // pseudo-random function over 20 variables and a small partner, with second routes to the same
+    // function (De Morgan, and_not, ite); decided by `isCanon` on every result and by the model replay
+    let bigs = if thorough { 3 } else { 1 };
+    for k in 0..bigs {
+        let n = 20usize;
+        let tt: Vec<bool> = (0..(1usize << n)).map(|_| rng.bool()).collect();
+        let big = fmt_bdd(&bdd_of_tt(n, &tt));
+        let m: usize = (rng.next() as usize & ((1 << n) - 1)) | 1 | (1 << (n - 1));
+        let small = if k % 2 == 0 {
+            fmt_bdd(&bdd_of_tt(n, &(0..(1usize << n)).map(|i| (i & m).count_ones() % 2 == 1).collect::<Vec<_>>()))
+        } else {
+            fmt_bdd(&bdd_of_tt(n, &(0..(1usize << n)).map(|i| i & 1 == 1 && (i >> 7) & 1 == 0).collect::<Vec<_>>()))
+        };
+        // pool: 0 = big, 1 = small; results: 2 = and, 3 = !big, 4 = !small, 5 = !big | !small, 6 = !5 (== 2),
+        // 7 = big & !(!small) (== 2), 8 = ite(small, big, false-ish 6) , 9 = restriction, 10 = select
+        // (the big operand appears on the left AND on the right of binary operators)
+        let ops = [s("and:0:1"), s("not:0"), s("not:1"), s("or:4:3"), s("not:5"), s("andnot:0:4"), s("ite:1:0:6"),
+                   s("varrestrict:0:19:1"), s("varselect:0:0:0"), s("xor:1:0"), s("iff:0:4"), s("and:1:0"), s("imp:4:3")];
+        run("C02.prog", &[n.to_string(), format!("{};{}", big, small), ops.join(";")], out);
+    }
     // --- random histories
     let programs = if thorough { 120000 } else { 5000 };
     for _ in 0..programs {
